@@ -462,6 +462,28 @@ def accepted {V : Type} [Val V] (r : Reg V) : List (Op V) → List (Op V)
   | [] => []
   | op :: ops => (acceptedOp r op).toList ++ accepted (step r op).1 ops
 
+/-! ### objects the caller keeps -/
+
+/-- an object the caller handed to the library and may go on mutating: the dict given to `info()`, the `states`
+sequence given to `Enum(...)`, the `buckets` sequence given to `Histogram(...)` -/
+inductive CallerObject
+  | infoDict
+  | states
+  | buckets
+deriving Repr, DecidableEq
+
+/-- does the library store a COPY (extracted from the source on every run)? -/
+def copiedOnEntry : CallerObject → Bool
+  | .infoDict => infoCopiesDict
+  | .states => enumCopiesStates
+  | .buckets => histogramCopiesBuckets
+
+/-- The registry after the CALLER mutated such an object (no call on any metric): unchanged when the library stored a
+copy.  When it stored the caller's object itself the exposed samples follow the caller's mutation, which this model —
+whose states hold values, not references — cannot express: `none`. -/
+def afterCallerMutation {V : Type} (r : Reg V) (o : CallerObject) : Option (Reg V) :=
+  if copiedOnEntry o then some r else none
+
 /-! ### collect -/
 
 structure Sample (V : Type) where
